@@ -3,6 +3,7 @@
 -/
 import Jb.Model.Vocoder
 import Mathlib.Algebra.Order.Field.Basic
+import Mathlib.Algebra.BigOperators.Intervals
 import Mathlib.Tactic.Linarith
 import Mathlib.Tactic.Ring
 import Mathlib.Tactic.FieldSimp
@@ -13,47 +14,299 @@ namespace Jb
 
 variable {K : Type} [Field K] [LinearOrder K] [IsStrictOrderedRing K] [Transc K] [Consts K]
 
+/-! ### `isZeroS`, `mc2b`, `b2mc` -/
+
 theorem isZeroS_iff (x : K) : isZeroS x = true ↔ x = 0 := by
-  sorry
+  unfold isZeroS
+  simp only [Bool.and_eq_true, Bool.not_eq_true', decide_eq_false_iff_not, not_lt, decide_eq_true_eq]
+  constructor
+  · rintro ⟨⟨h1, h2⟩, _⟩; exact le_antisymm h2 h1
+  · rintro rfl; exact ⟨⟨le_refl _, le_refl _⟩, le_refl _⟩
 
-/-- `b2mc` inverts `mc2b` (any α, any length). -/
-theorem b2mc_mc2b (alpha : K) (c : List K) : b2mc alpha (mc2b alpha c) = c := by
-  sorry
+theorem mc2b_nil (alpha : K) : mc2b alpha [] = [] := by
+  unfold mc2b; split <;> rfl
 
-/-- `mc2b` inverts `b2mc`. -/
-theorem mc2b_b2mc (alpha : K) (b : List K) : mc2b alpha (b2mc alpha b) = b := by
-  sorry
-
-theorem mc2b_length (alpha : K) (c : List K) : (mc2b alpha c).length = c.length := by
-  sorry
+theorem mc2b_cons (alpha : K) (c : K) (cs : List K) :
+    mc2b alpha (c :: cs) =
+      match mc2b alpha cs with
+      | [] => [c]
+      | b :: _ => (c - alpha * b) :: mc2b alpha cs := by
+  unfold mc2b
+  by_cases h : isZeroS alpha = true
+  · have h0 : alpha = 0 := (isZeroS_iff alpha).1 h
+    subst h0
+    simp only [h, if_true]
+    cases cs with
+    | nil => rfl
+    | cons b t => simp
+  · simp only [h, List.foldr_cons]
+    rfl
 
 theorem b2mc_length (alpha : K) (b : List K) : (b2mc alpha b).length = b.length := by
-  sorry
+  fun_induction b2mc alpha b with
+  | case1 => rfl
+  | case2 => rfl
+  | case3 b b' rest ih => simp [ih]
 
-/-- entry-wise: `b2mc` is `c[k] = b[k] + α b[k+1]` (with `b[len] = 0`) -/
+theorem b2mc_mc2b (alpha : K) (c : List K) : b2mc alpha (mc2b alpha c) = c := by
+  induction c with
+  | nil => rw [mc2b_nil]; rfl
+  | cons c cs ih =>
+    rw [mc2b_cons]
+    cases h : mc2b alpha cs with
+    | nil =>
+      rw [h] at ih
+      simp only [b2mc] at ih ⊢
+      rw [← ih]
+    | cons b t =>
+      rw [h] at ih
+      simp only [b2mc, ih]
+      congr 1
+      ring
+
+theorem mc2b_b2mc (alpha : K) (b : List K) : mc2b alpha (b2mc alpha b) = b := by
+  fun_induction b2mc alpha b with
+  | case1 => exact mc2b_nil alpha
+  | case2 b => rw [mc2b_cons, mc2b_nil]
+  | case3 b b' rest ih =>
+    rw [mc2b_cons, ih]
+    simp
+
+theorem mc2b_length (alpha : K) (c : List K) : (mc2b alpha c).length = c.length := by
+  have h := congrArg List.length (b2mc_mc2b alpha c)
+  rwa [b2mc_length] at h
+
 theorem b2mc_getD (alpha : K) (b : List K) (k : Nat) (hk : k < b.length) :
     (b2mc alpha b).getD k 0 = b.getD k 0 + alpha * b.getD (k + 1) 0 := by
-  sorry
+  fun_induction b2mc alpha b generalizing k with
+  | case1 => simp at hk
+  | case2 b =>
+    have : k = 0 := by simpa using hk
+    subst this; simp
+  | case3 b b' rest ih =>
+    cases k with
+    | zero => simp
+    | succ k =>
+      have hk' : k < (b' :: rest).length := by simpa using hk
+      have := ih k hk'
+      simpa using this
 
-/-- With the repaired input order, `freqt` at `α = 0` and equal order is the identity. -/
+/-! ### `freqt` at `α = 0` -/
+
+theorem freqtStep_go_zero (po pn : K) (l : List K) :
+    freqtStep.go (0 : K) po pn l = (po :: l).take l.length := by
+  induction l generalizing po pn with
+  | nil => rfl
+  | cons gj tl ih =>
+    simp only [freqtStep.go, ih, List.length_cons, List.take_succ_cons]
+    congr 1
+    ring
+
+theorem freqtStep_zero (x : K) (g : List K) :
+    freqtStep (0 : K) 1 x g = (x :: g).take g.length := by
+  match g with
+  | [] => rfl
+  | [g0] => simp [freqtStep]
+  | g0 :: g1 :: rest2 =>
+    simp only [freqtStep, freqtStep_go_zero, List.length_cons, List.take_succ_cons]
+    congr 1
+    · ring
+    · congr 1; ring
+
+private theorem take_append_take (a b : List K) (n : Nat) :
+    (a ++ b.take n).take n = (a ++ b).take n := by
+  rw [List.take_append, List.take_append, List.take_take]
+  congr 2
+  omega
+
+theorem freqt_fold_zero (xs g : List K) :
+    xs.foldl (fun g x => freqtStep (0 : K) 1 x g) g = (xs.reverse ++ g).take g.length := by
+  induction xs generalizing g with
+  | nil => simp
+  | cons x xs ih =>
+    rw [List.foldl_cons, ih, freqtStep_zero]
+    have hl : ((x :: g).take g.length).length = g.length := by simp
+    rw [hl, take_append_take]
+    simp
+
 theorem freqt_zero_id (c : List K) (hc : c ≠ []) : freqt true c (c.length - 1) 0 = c := by
-  sorry
+  unfold freqt
+  have h1 : (1 : K) - 0 * 0 = 1 := by ring
+  simp only [h1, if_true]
+  rw [freqt_fold_zero]
+  have hl : c.length - 1 + 1 = c.length := by
+    have : 0 < c.length := List.length_pos_of_ne_nil hc
+    omega
+  simp [hl]
 
-/-- All-zero MLSA coefficients: the filter is the identity on the signal, in every state. -/
+/-! ### MLSA filter with all-zero coefficients -/
+
+private theorem getD_zero_of_all_zero (c : List K) (hc : ∀ y ∈ c, y = 0) (i : Nat) : c.getD i 0 = 0 := by
+  rw [List.getD_eq_getElem?_getD]
+  cases h : c[i]? with
+  | none => rfl
+  | some y => exact hc y (List.mem_of_getElem? h)
+
+/-- a fold over `(x, out, state)` whose step leaves `x` and `out = 0` fixed -/
+private theorem fold_keep {S : Type} (F : K × K × S → Nat → K × K × S)
+    (hF : ∀ x s i, (F (x, 0, s) i).1 = x ∧ (F (x, 0, s) i).2.1 = 0) (x : K) :
+    ∀ (is : List Nat) (s : S),
+      (is.foldl F (x, 0, s)).1 = x ∧ (is.foldl F (x, 0, s)).2.1 = 0 := by
+  intro is
+  induction is with
+  | nil => intro s; exact ⟨rfl, rfl⟩
+  | cons i is ih =>
+    intro s
+    rw [List.foldl_cons]
+    obtain ⟨h1, h2⟩ := hF x s i
+    have : F (x, 0, s) i = (x, 0, (F (x, 0, s) i).2.2) := by
+      apply Prod.ext h1
+      exact Prod.ext h2 rfl
+    rw [this]
+    exact ih _
+
+theorem mlsaDf1_zero (st : MlsaSt K) (x alpha : K) (c : List K) (hc : ∀ y ∈ c, y = 0) :
+    (mlsaDf1 st x alpha c).1 = x := by
+  unfold mlsaDf1
+  have h1 : c.getD 1 0 = 0 := getD_zero_of_all_zero c hc 1
+  simp only [h1]
+  have := fold_keep (S := List K × List K) (fun (acc : K × K × List K × List K) i =>
+      let (x, out, d11, d12) := acc
+      let n11 := (1 - alpha * alpha) * st.d12.getD (i - 1) 0 + alpha * d11.getD i 0
+      let n12 := n11 * 0
+      let v := n12 * (padeCoef : List K).getD i 0
+      (if i % 2 = 1 then x + v else x + -v, out + v, d11.set i n11, d12.set i n12))
+    (by intro x s i; obtain ⟨a, b⟩ := s; simp) x [5, 4, 3, 2, 1] (st.d11, st.d12)
+  obtain ⟨e1, e2⟩ := this
+  simp only [] at e1 e2 ⊢
+  rw [e1, e2]; simp
+
+private theorem foldl_zip_zero (l : List (K × K)) (hl : ∀ p ∈ l, p.2 = 0) (a : K) :
+    l.foldl (fun acc (p : K × K) => acc + p.1 * p.2) a = a := by
+  induction l generalizing a with
+  | nil => rfl
+  | cons p l ih =>
+    rw [List.foldl_cons, hl p (List.mem_cons_self), mul_zero, add_zero]
+    exact ih (fun q hq => hl q (List.mem_cons_of_mem _ hq)) a
+
+theorem fir_zero (d : List K) (x alpha : K) (c : List K) (hc : ∀ y ∈ c, y = 0) :
+    (fir d x alpha c).1 = 0 := by
+  unfold fir
+  cases d with
+  | nil => rfl
+  | cons d0 dt =>
+    simp only []
+    apply foldl_zip_zero
+    intro p hp
+    exact hc p.2 (List.of_mem_zip (List.mem_of_mem_drop hp)).2
+
+theorem mlsaDf2_zero (st : MlsaSt K) (x alpha : K) (c : List K) (hc : ∀ y ∈ c, y = 0) :
+    (mlsaDf2 st x alpha c).1 = x := by
+  unfold mlsaDf2
+  have := fold_keep (S := List (List K) × List K)
+    (fun (acc : K × K × List (List K) × List K) i =>
+      let (x, out, d21, d22) := acc
+      let (y, dn) := fir (d21.getD (i - 1) []) (st.d22.getD (i - 1) 0) alpha c
+      let v := y * (padeCoef : List K).getD i 0
+      (if i % 2 = 1 then x + v else x + -v, out + v, d21.set (i - 1) dn, d22.set i y))
+    (by
+      intro x s i; obtain ⟨a, b⟩ := s
+      have hf := fir_zero (a.getD (i - 1) []) (st.d22.getD (i - 1) 0) alpha c hc
+      simp only [hf, zero_mul, add_zero, neg_zero, ite_self, and_self]) x [5, 4, 3, 2, 1] (st.d21, st.d22)
+  obtain ⟨e1, e2⟩ := this
+  simp only [] at e1 e2 ⊢
+  rw [e1, e2]; simp
+
 theorem mlsaDf_zero (st : MlsaSt K) (x alpha : K) (c : List K) (hc : ∀ y ∈ c, y = 0) :
     (mlsaDf st x alpha c).1 = x := by
-  sorry
+  unfold mlsaDf
+  simp only []
+  rw [mlsaDf2_zero _ _ _ _ hc, mlsaDf1_zero _ _ _ _ hc]
 
-/-- The same transformation with equal source and target γ is truncation (the symmetric sums cancel). -/
+/-! ### `gc2gc` with equal γ -/
+
+private theorem pair_fold_range (f g : Nat → K) (a b : K) (n : Nat) :
+    (List.range n).foldl (fun (acc : K × K) k0 => (acc.1 + f k0, acc.2 + g k0)) (a, b) =
+      (a + ∑ k ∈ Finset.range n, f k, b + ∑ k ∈ Finset.range n, g k) := by
+  induction n with
+  | zero => simp
+  | succ n ih =>
+    rw [List.range_succ, List.foldl_append, ih, Finset.sum_range_succ, Finset.sum_range_succ]
+    simp [add_assoc]
+
+private theorem getD_take_of_lt (c : List K) (n j : Nat) (h : j < n) : (c.take n).getD j 0 = c.getD j 0 := by
+  simp [List.getD_eq_getElem?_getD, h]
+
+theorem gc2gc_sums_eq (c : List K) (i : Nat) :
+    ∑ k0 ∈ Finset.range i, ((i + 1 - (k0 + 1) : Nat) : K) * (c.getD (k0 + 1) 0 * (c.take (i + 1)).getD (i + 1 - (k0 + 1)) 0) =
+    ∑ k0 ∈ Finset.range i, ((k0 + 1 : Nat) : K) * (c.getD (k0 + 1) 0 * (c.take (i + 1)).getD (i + 1 - (k0 + 1)) 0) := by
+  rw [← Finset.sum_range_reflect]
+  apply Finset.sum_congr rfl
+  intro j hj
+  have hj' : j < i := Finset.mem_range.1 hj
+  have e1 : i + 1 - (i - 1 - j + 1) = j + 1 := by omega
+  have e2 : i - 1 - j + 1 = i + 1 - (j + 1) := by omega
+  rw [e1, e2, getD_take_of_lt c (i + 1) (j + 1) (by omega),
+    getD_take_of_lt c (i + 1) (i + 1 - (j + 1)) (by omega)]
+  ring
+
+theorem gc2gc_step (c : List K) (g : K) (i : Nat) (hi : i + 1 < c.length) :
+    (fun (c2 : List K) i0 =>
+      let i := i0 + 1
+      let (ss1, ss2) := (List.range (min c.length i - 1)).foldl (fun (acc : K × K) k0 =>
+          let k := k0 + 1
+          let mk := i - k
+          let cc := c.getD k 0 * c2.getD mk 0
+          (acc.1 + (mk : K) * cc, acc.2 + (k : K) * cc)) (0, 0)
+      let t := (g * ss2 - g * ss1) / (i : K)
+      c2 ++ [if i < c.length then c.getD i 0 + t else t]) (c.take (i + 1)) i = c.take (i + 2) := by
+  have hmin : min c.length (i + 1) - 1 = i := by omega
+  simp only [hmin, hi, if_true]
+  rw [pair_fold_range (fun k0 => ((i + 1 - (k0 + 1) : Nat) : K) * (c.getD (k0 + 1) 0 * (c.take (i + 1)).getD (i + 1 - (k0 + 1)) 0))
+    (fun k0 => ((k0 + 1 : Nat) : K) * (c.getD (k0 + 1) 0 * (c.take (i + 1)).getD (i + 1 - (k0 + 1)) 0))]
+  simp only [gc2gc_sums_eq, zero_add, sub_self, zero_div, add_zero]
+  rw [List.take_add_one (i := i + 1)]
+  simp [List.getD_eq_getElem?_getD, hi]
+
+theorem gc2gc_fold (c : List K) (g : K) (i : Nat) (hi : i < c.length) :
+    (List.range i).foldl (fun (c2 : List K) i0 =>
+      let i := i0 + 1
+      let (ss1, ss2) := (List.range (min c.length i - 1)).foldl (fun (acc : K × K) k0 =>
+          let k := k0 + 1
+          let mk := i - k
+          let cc := c.getD k 0 * c2.getD mk 0
+          (acc.1 + (mk : K) * cc, acc.2 + (k : K) * cc)) (0, 0)
+      let t := (g * ss2 - g * ss1) / (i : K)
+      c2 ++ [if i < c.length then c.getD i 0 + t else t]) [c.getD 0 0] = c.take (i + 1) := by
+  induction i with
+  | zero =>
+    cases c with
+    | nil => simp at hi
+    | cons a t => simp
+  | succ i ih =>
+    rw [List.range_succ, List.foldl_append, ih (by omega), List.foldl_cons, List.foldl_nil]
+    exact gc2gc_step c g i hi
+
 theorem gc2gc_same_gamma (c : List K) (g : K) (m : Nat) (hm : m < c.length) :
     gc2gc c g m g = c.take (m + 1) := by
-  sorry
+  unfold gc2gc
+  exact gc2gc_fold c g m hm
 
-/-- `ignorm` inverts `gnorm` when the power function does (`(k^(1/γ))^γ = k`) and `k ≠ 0`. -/
+/-! ### `gnorm` / `ignorm` -/
+
 theorem ignorm_gnorm (gamma : K) (hg : gamma ≠ 0) (c0 : K) (rest : List K)
     (hk : 1 + gamma * c0 ≠ 0)
     (hpow : Transc.pow (Transc.pow (1 + gamma * c0) (1 / gamma)) gamma = 1 + gamma * c0) :
     ignorm gamma (gnorm gamma (c0 :: rest)) = c0 :: rest := by
-  sorry
+  have hz : isZeroS gamma = false := by
+    rw [Bool.eq_false_iff]; intro h; exact hg ((isZeroS_iff gamma).1 h)
+  simp only [gnorm, ignorm, hz, Bool.not_false, if_true, hpow, List.map_map]
+  congr 1
+  · field_simp; ring
+  · conv_rhs => rw [← List.map_id rest]
+    apply List.map_congr_left
+    intro x _
+    simp only [Function.comp, id]
+    exact div_mul_cancel₀ x hk
 
 end Jb
